@@ -397,8 +397,6 @@ func (r *Rig) Step(id int) bool {
 		}
 		r.Grants = append(r.Grants, Grant{t.ID, t.pending.slot, t.pending.excl})
 	}
-	r.ModelSched = append(r.ModelSched, [2]int{id, 0})
-	unlocked := false
 	failedBefore := t.failed
 	t.resume <- struct{}{}
 	for {
@@ -410,23 +408,17 @@ func (r *Rig) Step(id int) bool {
 				} else {
 					delete(r.shared[ev.slot], ev.owner)
 				}
-				// the model has a separate Release step (or, after an injected panic, the panic step)
-				r.ModelSched = append(r.ModelSched, [2]int{id, 0})
-				unlocked = true
 				continue
 			}
 			ev.owner.pending = ev
 			if ev.kind == evFinished {
 				ev.owner.finished = true
 			}
+			pn := 0
 			if t.failed && !failedBefore {
-				// the injected panic fired during this step: in the model the thread dies
-				if unlocked {
-					r.ModelSched[len(r.ModelSched)-1][1] = 1
-				} else {
-					r.ModelSched = append(r.ModelSched, [2]int{id, 1})
-				}
+				pn = 1 // the injected panic fired during this step: in the model the thread dies after it
 			}
+			r.ModelSched = append(r.ModelSched, [2]int{id, pn})
 			return true
 		case <-time.After(10 * time.Second):
 			r.Err = fmt.Sprintf("thread %d did not reach its next scheduling point within 10 s", id)
